@@ -350,7 +350,8 @@ def check_cycles_rules(ctx, rep, rule):
         if f is None:
             continue
         from .common import topo_loops
-        uses = topo_loops(ctx, f)
+        # (the numbering helper that list() calls first has its own loop: it is a consumer of its own)
+        uses = topo_loops(ctx, f, exclude={x for x in ('list', '_set_sched_ids', '_dot_body') if x != name})
         rep.check(bool(uses), rule, "%s iterates in topological order" % f.qualname, f.qualname,
                   "%s does not loop over self.topological_order()" % f.qualname,
                   "jobs are numbered / listed / drawn in an order that is not a linear extension")
